@@ -86,7 +86,7 @@ def gen_check(drv, pid, cfg, info, seed, tier, viol_so_far):
         groups = [g if isinstance(g, list) else [g] for g in cfg['gen_proofs']]
 
         def compile_one(f):
-            return f, drv.run(['timeout', '900', 'coqc', '-R', drv.COQ, 'Verif', os.path.join(drv.COQ, f)], cwd=drv.COQ)
+            return f, drv.coqc_cached(f)
 
         for gi, group in enumerate(groups):
             last = gi == len(groups) - 1
@@ -94,8 +94,7 @@ def gen_check(drv, pid, cfg, info, seed, tier, viol_so_far):
             for f in group:
                 src, vo = os.path.join(drv.COQ, f), os.path.join(drv.COQ, f[:-2] + '.vo')
                 fresh = os.path.exists(vo) and all(os.path.getmtime(vo) >= os.path.getmtime(d) for d in prev + [src] if os.path.exists(d))
-                if not fresh or last:
-                    todo.append(f)
+                todo.append(f)      # drv.coqc_cached decides what really needs compiling
             with ThreadPoolExecutor(max_workers=4) as ex:
                 for f, (rc, o) in ex.map(compile_one, todo):
                     if rc != 0 and failed is None:
